@@ -145,6 +145,37 @@ impl Parser {
 
 static RIP_TERMINAL_ID: &str = "RIPSCRIP015410\0";
 
+/// Verification hook (observation only, compiled only with `--cfg icy_engine_verif`).
+#[cfg(icy_engine_verif)]
+impl Parser {
+    /// lexer state, parameter cursor, number of commands run, RIP enabled, class of the ANSI fallback state
+    /// (`d` default, `c` CSI, `o` other) with its first parsed number, and the command under construction.
+    pub fn verif_digest(&self) -> (String, i32, i32, bool, char, Option<i32>, Option<String>) {
+        let st = match self.state {
+            State::Default => "D".to_string(),
+            State::GotRipStart => "G".to_string(),
+            State::ReadCommand(l) => format!("C{l}"),
+            State::ReadParams => "P".to_string(),
+            State::SkipEOL => "S".to_string(),
+            State::EndRip => "E".to_string(),
+        };
+        let fb = match self.fallback_parser.state {
+            EngineState::Default => 'd',
+            EngineState::ReadCSISequence(_) => 'c',
+            _ => 'o',
+        };
+        (
+            st,
+            self.parameter_state,
+            self.rip_counter,
+            self.enable_rip,
+            fb,
+            self.fallback_parser.parsed_numbers.first().copied(),
+            self.command.as_ref().map(|c| c.to_rip_string()),
+        )
+    }
+}
+
 impl Parser {
     pub fn start_command(&mut self, cmd: Box<dyn Command>) {
         // println!("---- start_command: {:?}", cmd.to_rip_string());
